@@ -139,8 +139,12 @@ pub fn oracle_creation(c: &PuCtx, rec: &mut Rec) {
 
 #[derive(Clone, Debug, Serialize, Deserialize)]
 pub struct CreateCase {
-    pub fee_cfg: u8, // 0: creation uusd + tf uom; 1: both uom; 2: tf = two coins
+    pub fee_cfg: u8, // 0: creation uusd + tf uom; 1: both uom; 2: tf = two coins; 3, 4: zero creation fee; 5, 6: tf = two coins, creation fee in its first / last denom
     pub pre_ids: Vec<String>,
+    /// the pool manager already holds unsolicited tokens of every fee denom (so that an under-paid token-factory fee
+    /// could be taken from the contract's own balance)
+    #[serde(default)]
+    pub pm_holds_fee_denoms: bool,
     pub op: PuOp,
 }
 
@@ -152,7 +156,17 @@ fn cfg_for(k: u8) -> WorldCfg {
         1 => c.pool_fee = coin(1000, "uom"),
         2 => c.tf_fee = vec![coin(8888, "uom"), coin(777, "uusdc")],
         3 => c.pool_fee = coin(0, "uusd"), // no creation fee, denom differs from the token-factory fee
-        _ => c.pool_fee = coin(0, "uom"),  // no creation fee, same denom as the token-factory fee
+        4 => c.pool_fee = coin(0, "uom"),  // no creation fee, same denom as the token-factory fee
+        5 => {
+            // token-factory fee of two coins, the creation fee in the denom of the first one
+            c.tf_fee = vec![coin(8888, "uom"), coin(500, "uusd")];
+            c.pool_fee = coin(2000, "uom");
+        }
+        _ => {
+            // ... and in the denom of the last one
+            c.tf_fee = vec![coin(8888, "uom"), coin(500, "uusd")];
+            c.pool_fee = coin(1000, "uusd");
+        }
     }
     c
 }
@@ -172,6 +186,15 @@ fn eval_case(w: &mut World, case: &CreateCase, rec: &mut Rec) -> bool {
         }
         m.into_iter().collect()
     };
+    if case.pm_holds_fee_denoms {
+        for (d, _) in &need {
+            let o = apply(w, &PuOp::Donate { u: B, denom: d.clone(), amt: 50_000 });
+            if !o.is_ok() {
+                rec.count("c16_setup_refused");
+                return false;
+            }
+        }
+    }
     for id in &case.pre_ids {
         let o = apply(w, &PuOp::CreatePool { u: OWNER, denoms: vec!["uom".into(), "uusd".into()], decimals: vec![6, 6], fees: std_fees(), amp: None, id: Some(id.clone()), funds: need.clone() });
         if !o.is_ok() {
@@ -190,7 +213,7 @@ fn eval_case(w: &mut World, case: &CreateCase, rec: &mut Rec) -> bool {
 pub fn creation_cases(tier: Tier) -> Vec<CreateCase> {
     let mut v = vec![];
     let s = |x: &[&str]| x.iter().map(|y| y.to_string()).collect::<Vec<String>>();
-    for k in 0u8..5 {
+    for k in 0u8..7 {
         let cfgw = cfg_for(k);
         let mut need: std::collections::BTreeMap<String, u128> = std::collections::BTreeMap::new();
         if !cfgw.pool_fee.amount.is_zero() {
@@ -232,8 +255,9 @@ pub fn creation_cases(tier: Tier) -> Vec<CreateCase> {
         fund_sets.push(vec![]);
         for f in &fund_sets {
             for amp in [None, Some(100u64)] {
-                v.push(CreateCase { fee_cfg: k, pre_ids: vec![], op: PuOp::CreatePool { u: A, denoms: s(&["uusd", "uusdc"]), decimals: vec![6, 6], fees: std_fees(), amp, id: Some("x".into()), funds: f.clone() } });
+                v.push(CreateCase { fee_cfg: k, pre_ids: vec![], pm_holds_fee_denoms: false, op: PuOp::CreatePool { u: A, denoms: s(&["uusd", "uusdc"]), decimals: vec![6, 6], fees: std_fees(), amp, id: Some("x".into()), funds: f.clone() } });
             }
+            v.push(CreateCase { fee_cfg: k, pre_ids: vec![], pm_holds_fee_denoms: true, op: PuOp::CreatePool { u: A, denoms: s(&["uusd", "uusdc"]), decimals: vec![6, 6], fees: std_fees(), amp: None, id: Some("x".into()), funds: f.clone() } });
         }
         if k != 0 && tier == Tier::Quick {
             continue;
@@ -244,7 +268,7 @@ pub fn creation_cases(tier: Tier) -> Vec<CreateCase> {
             for amp in [None, Some(0u64), Some(1), Some(100)] {
                 for dl in [l.len(), l.len() + 1, l.len().saturating_sub(1)] {
                     let decimals: Vec<u8> = (0..dl).map(|i| if i % 2 == 0 { 6 } else { 18 }).collect();
-                    v.push(CreateCase { fee_cfg: k, pre_ids: vec![], op: PuOp::CreatePool { u: A, denoms: l.clone(), decimals, fees: std_fees(), amp, id: None, funds: exact.clone() } });
+                    v.push(CreateCase { fee_cfg: k, pre_ids: vec![], pm_holds_fee_denoms: false, op: PuOp::CreatePool { u: A, denoms: l.clone(), decimals, fees: std_fees(), amp, id: None, funds: exact.clone() } });
                 }
             }
         }
@@ -263,7 +287,7 @@ pub fn creation_cases(tier: Tier) -> Vec<CreateCase> {
         ];
         for f in feesets {
             for amp in [None, Some(10u64)] {
-                v.push(CreateCase { fee_cfg: k, pre_ids: vec![], op: PuOp::CreatePool { u: A, denoms: s(&["uusd", "uusdc"]), decimals: vec![6, 6], fees: f.clone(), amp, id: None, funds: exact.clone() } });
+                v.push(CreateCase { fee_cfg: k, pre_ids: vec![], pm_holds_fee_denoms: false, op: PuOp::CreatePool { u: A, denoms: s(&["uusd", "uusdc"]), decimals: vec![6, 6], fees: f.clone(), amp, id: None, funds: exact.clone() } });
             }
         }
         // identifiers
@@ -272,8 +296,8 @@ pub fn creation_cases(tier: Tier) -> Vec<CreateCase> {
             ids.push(Some("z".repeat(len)));
         }
         for id in ids {
-            v.push(CreateCase { fee_cfg: k, pre_ids: vec![], op: PuOp::CreatePool { u: A, denoms: s(&["uusd", "uusdc"]), decimals: vec![6, 6], fees: std_fees(), amp: None, id: id.clone(), funds: exact.clone() } });
-            v.push(CreateCase { fee_cfg: k, pre_ids: vec!["a".into(), "1".into()], op: PuOp::CreatePool { u: A, denoms: s(&["uusd", "uusdc"]), decimals: vec![6, 6], fees: std_fees(), amp: None, id, funds: exact.clone() } });
+            v.push(CreateCase { fee_cfg: k, pre_ids: vec![], pm_holds_fee_denoms: false, op: PuOp::CreatePool { u: A, denoms: s(&["uusd", "uusdc"]), decimals: vec![6, 6], fees: std_fees(), amp: None, id: id.clone(), funds: exact.clone() } });
+            v.push(CreateCase { fee_cfg: k, pre_ids: vec!["a".into(), "1".into()], pm_holds_fee_denoms: false, op: PuOp::CreatePool { u: A, denoms: s(&["uusd", "uusdc"]), decimals: vec![6, 6], fees: std_fees(), amp: None, id, funds: exact.clone() } });
         }
     }
     v
@@ -285,7 +309,7 @@ pub fn jobs(tier: Tier) -> Vec<Job> {
         explore_job(full, tier.pick(2, 3), Caps::default()),
         grid_job(
             "c16-creation-grid",
-            "CreatePool over asset lists (0-5 denoms incl. duplicates) x decimals length {n, n+1, n-1} x types {CP, SS amp 0/1/100} x fee sets (each <100%, total 20% / 20%+1bp) x identifiers (none, valid, 38-60 chars, illegal chars, duplicate, '1' vs generated 'p.1') x fund combinations {exact, +-1 each coin, missing coin, extra denom, none} under five fee configurations (incl. a zero creation fee); non-trivial = setup accepted",
+            "CreatePool over asset lists (0-5 denoms incl. duplicates) x decimals length {n, n+1, n-1} x types {CP, SS amp 0/1/100} x fee sets (each <100%, total 20% / 20%+1bp) x identifiers (none, valid, 38-60 chars, illegal chars, duplicate, '1' vs generated 'p.1') x fund combinations {exact, +-1 each coin, missing coin, extra denom, none} under seven fee configurations (incl. a zero creation fee and a two-coin token-factory fee with the creation fee in its first / last denom), each fund combination also with the pool manager already holding tokens of every fee denom; non-trivial = setup accepted",
             cfg,
             creation_cases(tier),
             eval_case,
